@@ -4,7 +4,7 @@ import math
 from hypothesis import strategies as st
 
 from pbt import netgen, oracles
-from pbt.core import Result, pf_tol, silence, exc_sig
+from pbt.core import Result, pf_tol, silence, exc_sig, pf_outcome
 
 ID = "C01"
 LEVEL = "exploration"
@@ -95,12 +95,12 @@ def check(case):
     res.label("mode:" + opt["mode"])
     try:
         run_pf(net, opt, recipe)
-    except pp.LoadflowNotConverged:
-        res.skipped = "not-converged"
-        return res
-    except (UserWarning, ValueError, NotImplementedError) as e:
-        # documented rejections (no reference bus, conflicting setpoints, unsupported option combination)
-        res.skipped = "rejected:" + exc_sig(e)
+    except Exception as e:
+        kind, what = pf_outcome(e)
+        if kind == "skip":
+            res.skipped = what
+        else:   # a valid network must be solved or rejected with a documented error, not crash
+            res.fail(what, error=repr(e)[:300])
         return res
     if not net.converged:
         res.skipped = "not-converged"
